@@ -304,6 +304,13 @@ pub fn run(prop: &'static str) -> i32 {
         let mut hashes: BTreeMap<String, Vec<u8>> = BTreeMap::new();
         let mut failures: Vec<(String, Vec<u8>, usize)> = Vec::new();
         let mut max_branches = 0usize;
+        let mut capped_any = false;
+        // three canonical hand-off orders: ascending ids (producer first), producer last, round robin
+        let policies: Vec<(u8, usize)> = if th { vec![(0, bound), (2, bound.min(2)), (1, bound.min(2))] } else { vec![(0, bound), (2, 1)] };
+        for (policy, bound) in policies {
+        crate::schedx::ROUND_ROBIN.store(policy == 1, std::sync::atomic::Ordering::Relaxed);
+        crate::schedx::MAIN_LAST.store(policy == 2, std::sync::atomic::Ordering::Relaxed);
+        let body = body.clone();
         let shared = explore(bound, ncpu(), max_exec, 2_000_000, vec![], body, |r: ExecResult<Obs>| {
             n_exec += 1;
             if prop == "C05" {
@@ -324,10 +331,14 @@ pub fn run(prop: &'static str) -> i32 {
                 Err(p) => failures.push((format!("panic: {p}"), r.choices, r.deviations)),
             }
         });
-        let capped = shared.capped.load(std::sync::atomic::Ordering::Relaxed);
+        capped_any |= shared.capped.load(std::sync::atomic::Ordering::Relaxed);
         for d in shared.diverged.lock().unwrap().iter().take(3) {
             rep.machinery_error(format!("{}: {}", sc.name, d));
         }
+        }
+        crate::schedx::ROUND_ROBIN.store(false, std::sync::atomic::Ordering::Relaxed);
+        crate::schedx::MAIN_LAST.store(false, std::sync::atomic::Ordering::Relaxed);
+        let capped = capped_any;
         total_exec += n_exec;
         total_traces += traces.len() as u64;
         per_scenario.push(json!({"scenario": sc.name, "executions": n_exec, "distinct_event_traces": traces.len(), "distinct_archives": hashes.len(), "max_branch_points": max_branches, "cap_hit": capped, "failures": failures.len()}));
@@ -385,6 +396,7 @@ pub fn run(prop: &'static str) -> i32 {
     }
     rep.set("schedules_executed", json!(total_exec));
     rep.set("deviation_bound_completed", json!(bound));
+    rep.set("hand_off_orders", json!(if th { "ascending ids (bound B), producer last (bound min(B,2)), round robin (bound min(B,2))" } else { "ascending ids (bound B), producer last (bound 1)" }));
     rep.set("distinct_archives_per_group", json!(group_hashes.iter().map(|(g, h)| (g.clone(), h.len())).collect::<BTreeMap<_, _>>()));
     rep.set("per_scenario", json!(per_scenario));
     let any_cap = per_scenario.iter().any(|p| p["cap_hit"] == json!(true));
